@@ -155,6 +155,10 @@ static int walk(int kind, const uint8_t *a, size_t n, int mode, size_t piece, ob
 		return 1;
 	}
 	rd = lha_reader_new(s.st);
+	/* calls made while no entry is current (before the first request, and after the end below) report failure */
+	if (mode == 1) { if (lha_reader_read(rd, buf, 16) != 0) vf_viol("c08-call-without-entry", "read before the first entry returned data"); }
+	else if (mode == 2) { if (lha_reader_check(rd, NULL, NULL) != 0) vf_viol("c08-call-without-entry", "check before the first entry reports success"); }
+	else (void) lha_reader_current_is_fake(rd);
 	for (;;) {
 		API(0, h = lha_reader_next_file(rd));
 		if (!h) break;
@@ -185,6 +189,9 @@ static int walk(int kind, const uint8_t *a, size_t n, int mode, size_t piece, ob
 	}
 	/* after the end: further requests keep reporting the end */
 	{ int k; for (k = 0; k < 2; ++k) { API(0, h = lha_reader_next_file(rd)); if (h && !LEAKS) vf_viol("end-not-sticky", "a header was returned after the end of the archive"); } }
+	if (mode == 1) { if (lha_reader_read(rd, buf, 16) != 0) vf_viol("c08-call-without-entry", "read after the end returned data"); }
+	else if (mode == 2) { if (lha_reader_check(rd, NULL, NULL) != 0) vf_viol("c08-call-without-entry", "check after the end reports success"); }
+	else (void) lha_reader_current_is_fake(rd);
 	TRACK = 0; ESCAPE_ARMED = 0;
 	o->peak = PEAK;
 	lha_reader_free(rd);
@@ -568,6 +575,33 @@ static void space_extreme(void)
 		if (o.members) vf_viol("c16-phantom-member", "a member was returned from filler bytes");
 		if (o.hang) vf_viol("c13-zero-progress-loop", "%s: header-less input", KIND_NAME[kind]);
 		vf_nontrivial(vf_mix(n, kind));
+	}
+	/* extended headers whose own length field is extreme (level 3: 32 bits, level 2: 16 bits), after a well-formed name header */
+	for (level = 2; level <= 3; ++level)
+	for (k = 0; k < 24; ++k)
+	for (kind = 0; kind < K_COUNT; kind += 2) {
+		static const uint32_t ev[24] = { 0xFFFFFFFFu, 0xFFFFFFFEu, 0xFFFFFFFAu, 0xFFFFFFF9u, 0xFFFFFFFBu, 0xFFFFFFF0u, 0xFFFFFFE0u, 0xFFFFFF00u, 0x80000000u, 0x80000006u, 0x7FFFFFFFu, 0xFFFF0000u,
+		                                 0x00010000u, 0x0000FFFFu, 0x0000FFFAu, 0x0000FFF9u, 0xFFFFFFFCu, 0xFFFFFFFDu, 0xFFFFFFF8u, 0xFFFFFFF7u, 0xFFFFFFF6u, 0xFFFFFFF5u, 0x40000000u, 0xC0000000u };
+		ref_hdr f;
+		size_t n, szw = level == 3 ? 4 : 2, at;
+		obs_t o;
+		if (!vf_case("level-%d header: name header, then an extended header whose length field is %08x, %s", level, ev[k], KIND_NAME[kind])) continue;
+		memset(&f, 0, sizeof f);
+		f.level = level; memcpy(f.method, "-lh0-", 5); f.name = f.area = (const uint8_t *) "";
+		f.ext[0].type = 1; f.ext[0].data = (const uint8_t *) "n.txt"; f.ext[0].len = 5;
+		f.ext[1].type = 0x7F; f.ext[1].data = (const uint8_t *) "abcd"; f.ext[1].len = 4; f.next = 2;
+		f.packed = f.size = 0;
+		n = ref_hdr_encode(&f, buf, sizeof buf);
+		/* the size field in front of the second extended header sits at the end of the first one */
+		at = (level == 3 ? 28 : 24) + szw + 1 + 5;
+		buf[at] = (uint8_t) ev[k]; buf[at + 1] = (uint8_t) (ev[k] >> 8);
+		if (szw == 4) { buf[at + 2] = (uint8_t) (ev[k] >> 16); buf[at + 3] = (uint8_t) (ev[k] >> 24); }
+		memset(buf + n, 0, 64);
+		walk(kind, buf, n + 64, 0, 0, &o);
+		if (o.hang) vf_viol("c13-zero-progress-loop", "%s: extended header length field %08x", KIND_NAME[kind], ev[k]);
+		if (o.peak > (8u << 20) + 2 * (n + 64)) vf_viol("c13-heap", "%s: peak live heap %zu (extended header length field %08x)", KIND_NAME[kind], o.peak, ev[k]);
+		vf_outcome(vf_mix(o.members, k));
+		vf_nontrivial(vf_mix(level * 32 + k, 9900 + kind));
 	}
 	/* a compressed size that, taken as a signed 32-bit number, is minus the header length (or minus a few bytes): a skip that went
 	 * backwards would present the same member again and again; whatever follows the one header, at most one member exists */
